@@ -315,6 +315,36 @@ class TupleNM(Hooks, NodeMixin, tuple):
         return "TupleNM(%s)" % (self.name,)
 
 
+class ReprLM(Hooks, LightNodeMixin):
+    """Its repr shows the node's position among its siblings, so it only works while both link directions agree
+    (library code that formats a node in the middle of an update gets an exception)."""
+
+    __slots__ = ("name",)
+
+    def __init__(self, name, key=0):
+        self.name = name
+
+    def __repr__(self):
+        p = self.parent
+        if p is None:
+            return "ReprLM(%s)" % (self.name,)
+        for i, c in enumerate(p.children):
+            if c is self:
+                return "ReprLM(%s #%d of %s)" % (self.name, i, p.name)
+        raise LookupError("%s is not among the children of its parent" % (self.name,))
+
+
+class BareNM(Hooks, NodeMixin):
+    """A node class without a ``name`` attribute (diagnostics must not assume one)."""
+
+    def __init__(self, label, key=0):
+        self.label = label
+        self.key = key
+
+    def __repr__(self):
+        return "BareNM(%r)" % (self.label,)
+
+
 class FalsyLM(Hooks, LightNodeMixin):
     """Always falsy, also as a parent that has children."""
 
@@ -390,7 +420,7 @@ LOCKSTEP_PAIRS = {"NM": ("NM", "LM"), "VALNM": ("VALNM", "VALLM"), "FALSYNMB": (
 
 def base_family(family):
     """'LM' for LightNodeMixin-based families (no claims for non-node arguments), else 'NM'."""
-    return "LM" if family in ("LM", "VALLM", "FALSYLM") else "NM"
+    return "LM" if family in ("LM", "VALLM", "FALSYLM", "REPRLM") else "NM"
 
 CUSTOM_FAMILIES = {}  # name -> factory(k) -> list of fresh detached nodes
 
@@ -407,6 +437,8 @@ def make_nodes(family, k):
         return [ValLM("n%d" % i, i % 2) for i in range(k)]
     if family == "ITER":
         return [IterNM("n%d" % i, i % 2) for i in range(k)]
+    if family == "REPRLM":
+        return [ReprLM("n%d" % i) for i in range(k)]
     if family == "LIST":
         return [ListNM("n%d" % i, i % 2) for i in range(k)]
     if family == "TUPLE":
